@@ -73,7 +73,7 @@ class NumEdit(Edit):
         Return true for allowed characters.
         """
         if len(ch) == 1:
-            if ch.upper() in self._allowed:
+            if ch.isascii() and ch.upper() in self._allowed:
                 return True
 
             return self._allow_negative and ch == "-" and self.edit_pos == 0 and "-" not in self.edit_text
